@@ -156,7 +156,9 @@ class VCSStrategyGit(VCSStrategy):
         if not Path(directory).is_dir():
             raise NotADirectoryError()
 
-        command = [str(cls.EXE), "status"]
+        # --no-optional-locks: do not let 'git status' refresh (rewrite) the
+        # index of the repository we are merely looking at.
+        command = [str(cls.EXE), "--no-optional-locks", "status"]
         result = execute_command(command, _LOGGER, cwd=directory)
 
         return not result.returncode
